@@ -31,6 +31,7 @@ type Quant struct {
 	Offs []Term // offsets OFF of index terms (+ OFF (f var)) used with the bound variable: instantiation patterns
 	Idx  []Term // full index terms mentioning the bound variable
 	// typed (non-index) quantifiers: alls(h, p, body)
+	Neg    bool     // universal at a negative position of the clause (a hypothesis of the goal)
 	Ex     bool     // existential at a positive position (witness candidates are offered to the solver)
 	TVars  []string // SMT names
 	TNames []string // source names
@@ -591,9 +592,9 @@ func (e *Env) evalCall(n ECall) Val {
 		e2.inQuant = e.inQuant + 1
 		e2.qvars = append(append([]string{}, e.qvars...), name)
 		var q *Quant
-		outer := e.rec != nil && e.inQuant == 0 && e.polarity() == 1
+		outer := e.rec != nil && e.inQuant == 0 && (e.polarity() == 1 || (e.polarity() == -1 && n.Fun == "forall"))
 		if outer {
-			q = &Quant{Var: name}
+			q = &Quant{Var: name, Neg: e.polarity() == -1}
 			e.rec.cur = q
 		}
 		body := e2.eval(n.Args[3])
